@@ -45,7 +45,7 @@ def marks_of(speech):
 
 # tokens that canonicalization splits, merges or re-types (geometry point names, chemical formulas, function names run together with their
 # argument, numbers with units, roman numerals, primes), in the contexts that trigger it; every element gets a distinct author id
-SPLIT_TEXTS = ["AB", "ABC", "PQRS", "NaCl", "CO", "HCl", "sinx", "dx", "XIV", "12cm", "3x", "f'", "x''", "lim", "arcsin", "a b", "1,234", "2.5"]
+SPLIT_TEXTS = ["AB", "ABC", "PQRS", "NaCl", "CO", "HCl", "sinx", "dx", "XIV", "12cm", "3x", "f'", "x''", "lim", "arcsin", "a b", "1,234", "2.5", "(g)", "(l)", "(aq)", "(s)"]
 SPLIT_PREFIX = ["\u2220", "\u25B3", "\u2221", "\u22A5", "\u2225", "\u25B1", "\u2312", "\u223C", "-", "\u2202", "d"]
 SPLIT_OVER = ["\u00AF", "\u2192", "\u2194", "\u2322", "^", "~", "\u20D7", "\u2312", "_", "\u23DE"]
 
